@@ -1,6 +1,7 @@
 """C06 — block-wise server: handlers see only complete in-order bodies; 2.31 / 4.08 / 4.00 as stated;
 Block2 responses are exact slices of the rendering of the latest block-0 request; state lifetime."""
 
+import os
 import random
 
 ID = "C06"
@@ -305,7 +306,7 @@ def judge(h, box, res, rep, case, T, EPS):
     deviation = False
 
     def wit(i, **kw):
-        lo = max(0, i - 6)
+        lo = max(0, i - int(os.environ.get("C06_WIT", "6")))
         return dict(flows=[{k: v for k, v in f.items() if k != "steps"} for f in h["flows"]], upto=[describe(h, t) for t in trace[lo : i + 1]], **kw)
 
     for i, tr in enumerate(trace):
@@ -417,6 +418,10 @@ def judge(h, box, res, rep, case, T, EPS):
                 continue
             handler_body = bytes(model.asm[K][0])
             model.asm[K][1] = now
+            if st["b2"] is not None:
+                # the assembly object outlives its completion (a later continuation at the right offset extends
+                # it): a Block2 option brought by this final block stays in force for such a later completion
+                model.asm_b2[K] = st["b2"]
         else:
             handler_body = st["payload"]
         # ---------------- Block2 stage ----------------
